@@ -150,9 +150,7 @@ func init() {
 	generators["C17"] = func(g *gen) {
 		for _, f := range []func(*gen){genC06, genC11, genC12} {
 			for i, line := range captureGen(g, f) {
-				if !g.thorough() && i%2 != 0 {
-					continue
-				}
+				_ = i // every line: the kernel matrices name each generated kernel variant exactly once
 				j := strings.Index(line, " ; ")
 				if j < 0 {
 					continue
